@@ -4,7 +4,7 @@ replacement/emptying/adding and import rewiring (self-imports, cycles); for ever
 query kind the specification predicts: answered.  GEN: TLC enumerates all single-step damages of small seeds (BFS) and
 simulates multi-step histories; the harness loads each workspace into a fresh host and issues every query kind at every
 token boundary (observable: answered / panicked / timeout / aborted)."""
-import json
+import json, os
 import vlib
 from checks import ws_common
 
@@ -20,8 +20,50 @@ def features_of(r):
     return f
 
 
+def scale_text(shape, n):
+    """rendering of Workspace.ScaleCases"""
+    if shape == "case_vars":
+        return "fn f(x) { case x {\n" + "".join(f"  v{i} -> v{i}\n" for i in range(n)) + "} }\n"
+    if shape == "case_lits":
+        return "fn f(x) { case x {\n" + "".join(f"  {i} -> \"s{i}\"\n" for i in range(n)) + "  _ -> \"\" } }\n"
+    if shape == "list":
+        return "const l = [\n" + ",\n".join(f"  #({i}, \"v{i}\")" for i in range(n)) + "\n]\nfn f() { l }\n"
+    if shape == "args":
+        return "fn g(l) { l }\nfn f() { g([" + ", ".join(str(i) for i in range(n)) + "]) }\n"
+    if shape == "lets":
+        return "fn f(a0) {\n" + "".join(f"  let a{i+1} = a{i} + {i}\n" for i in range(n)) + f"  a{n}\n}}\n"
+    if shape == "pipeline":
+        return "fn g(x) { x }\nfn f(x) { x\n" + "".join("  |> g\n" for i in range(n)) + "}\n"
+    if shape == "fns":
+        return "".join(f"pub fn f{i}(x) {{ x + {i} }}\n" for i in range(n)) + "fn main() { f0(1) }\n"
+    if shape == "variants":
+        return "pub type T {\n" + "".join(f"  V{i}(a: Int)\n" for i in range(n)) + "}\nfn f(t: T) { t }\n"
+    raise vlib.ToolError("unknown scale shape " + shape)
+
+
+def scale_family(out):
+    sc = getattr(ws_common, "SCALE", None)
+    if not sc:
+        raise vlib.ToolError("Workspace.tla did not print its scale cases")
+    d = vlib.workdir("c10-scale")
+    path = os.path.join(d, "scale.ndjson")
+    with open(path, "w") as f:
+        for c in sorted(sc, key=lambda c: (c["shape"], c["n"])):
+            f.write(json.dumps({"name": f"{c['shape']}:{c['n']}", "gen": c, "text": scale_text(c["shape"], c["n"])}) + "\n")
+    p = vlib.run_bin("scalecheck", stdin_path=path, timeout=1200)
+    if p.returncode != 0:
+        raise vlib.ToolError("scalecheck crashed: " + p.stderr.decode()[-1500:])
+    for r in vlib.json_lines(p.stdout):
+        if r["kind"] == "mismatch":
+            out.report(r["features"], r["detail"])
+        elif r["kind"] == "summary":
+            out.cov["evaluations"] += r["calls"]
+            out.cov["traces_validated_against_impl"] += r["cases"]
+
+
 def run(out, tier, seed):
     ws, multi, allseeds = ws_common.damaged_workspaces(out, tier, seed)
+    scale_family(out)
     cases = ws + multi + allseeds
     mism, summary, _ = ws_common.sweep(cases, "c10")
     for r in mism:
